@@ -335,10 +335,62 @@ def u_categorical(ctx):
             for b in range(Bw):
                 judge(form, n, P[b], {k: v[b] for k, v in out.items()}, "jit+vmap", klist[b] + "-wide")
                 ctx.monitor("categorical_cases_above_128_classes")
+    # masked laws are action distributions like any other: the restriction of a law whose excluded classes carry
+    # (almost) all of the mass -- excluded logits up to 500 above the allowed ones -- is still a coherent law
+    def make_masked(n, s):
+        def one(pm, key):
+            lg, m = pm[:n], pm[n:] > 0.5
+            d = Categorical(logits=lg).mask(m)
+            vals = jnp.arange(n)
+            ks = jr.split(key, s + K)
+            ss, sl = jax.vmap(d.sample_and_log_prob)(ks[s:])
+            return dict(lp=jax.vmap(d.log_prob)(vals), pr=jax.vmap(d.prob)(vals), ent=d.entropy(), mode=d.mode(),
+                        smp=jax.vmap(d.sample)(ks[:s]), ss=ss, sl=sl, lps=jax.vmap(d.log_prob)(ss))
+        return one
+
+    for n in ([3, 17] if ctx.quick else [2, 3, 5, 17, 128]):
+        Bm = ctx.n(8, 48)
+        PM, gaps = [], []
+        for b in range(Bm):
+            lg = gen_logits(ctx.rng, n, "gauss")
+            m = ctx.rng.random(n) < 0.6
+            m[int(ctx.rng.integers(n))] = True
+            if m.all():
+                m[int(ctx.rng.integers(n))] = n == 1
+            gap = [0.0, 40.0, 120.0, 500.0][b % 4]
+            lg = np.where(m, lg, lg + gap).astype(np.float32)
+            PM.append(np.concatenate([lg, m.astype(np.float32)]))
+            gaps.append(gap)
+        PM = np.stack(PM)
+        try:
+            out = jax.tree.map(np.asarray, eqx.filter_jit(jax.vmap(make_masked(n, S)))(jnp.asarray(PM), jr.split(ctx.key(900 + ki), Bm)))
+        except Exception as e:
+            _raises(ctx, "categorical", "jit-vmap-masked", e, {"form": "masked-logits", "n": n})
+            continue
+        finally:
+            ki += 1
+        for b in range(Bm):
+            lg, m = PM[b][:n].astype(np.float64), PM[b][n:] > 0.5
+            z = np.where(m, lg, -np.inf)
+            p_ref = np.exp(z - z[m].max())
+            p_ref = p_ref / p_ref.sum()
+            o = {k: v[b] for k, v in out.items()}
+            desc = {"class": "Categorical", "form": "masked-logits", "n": n, "excluded_logits_raised_by": gaps[b], "mode": "jit+vmap",
+                    "h": digest(PM[b]), "logits": lg[:8], "mask": m[:8]}
+            ctx.case(desc, nontrivial=bool((~m).any()), cls=f"Categorical/masked/gap{int(gaps[b])}/n{n}")
+            ctx.monitor("categorical_masked_cases")
+
+            def idx(a, n=n):
+                a = np.asarray(a).astype(np.int64)
+                return np.where((a >= 0) & (a < n), a, -1)
+            mm = int(np.asarray(o["mode"]))
+            judge_finite(ctx, "categorical-masked", desc, p_ref, o["lp"], o["pr"], o["ent"], int(idx(mm)), idx(o["smp"]), idx(o["ss"]),
+                         o["sl"], o["lps"], mode_raw=mm)
     ctx.require("categorical_cases", 20)
     ctx.require("chi_square_tests", 10)
     ctx.require("sample_and_log_prob_pairs", 1000)
     ctx.require("categorical_cases_above_128_classes", 2)
+    ctx.require("categorical_masked_cases", 8)
 
 
 # --------------------------------------------------------------------------------------
